@@ -132,6 +132,28 @@ def _cms_job(job):
     return st
 
 
+def _cms_lifetime(job):
+    """ONE sketch object lives through every event sequence of length <= 3 (add / batch_add / the queries of the invariants in between):
+    state kept inside the object besides its matrix (memoised answers, cached locations) is exercised, which snapshot/restore of the matrix cannot do"""
+    depth, width, seeds = job
+    st = Stats()
+    probe = CmsWorld(depth, width, seeds, (0, 1, 3), 10 ** 9)
+    events = [e for e in probe.enabled()]
+    for seq in itertools.product(range(len(events)), repeat=3):
+        w = CmsWorld(depth, width, seeds, (0, 1, 3), 10 ** 9)
+        for pos, ei in enumerate(seq):
+            fails = w.apply(events[ei])
+            st.count('transitions')
+            st.count('evaluations')
+            st.count('lifetime_steps')
+            if fails:
+                st.violation({'family': 'cms', 'depth': depth, 'width': width, 'seeds': seeds, 'history': [events[i] for i in seq[:pos + 1]], 'lifetime': True}, '; '.join(fails[:3]),
+                             {'family': 'cms_lifetime', 'kind': fails[0][:10]})
+                break
+    st.count('traces_validated')
+    return st
+
+
 def _cms_heavy(_):
     """weights far above 16 bits on a few items (cells must not wrap below the accumulated weight)"""
     st = Stats()
@@ -262,7 +284,7 @@ def _counter_job(job):
 
 def _dispatch(item):
     k, job = item
-    return {'cms': _cms_job, 'large': _cms_large, 'counter': _counter_job, 'heavy': _cms_heavy}[k](job)
+    return {'cms': _cms_job, 'large': _cms_large, 'counter': _counter_job, 'heavy': _cms_heavy, 'lifetime': _cms_lifetime}[k](job)
 
 
 def run(ctx):
@@ -280,6 +302,7 @@ def run(ctx):
     jobs += [('large', (d, w, ctx.seed * 100 + d)) for d in range(1, 9) for w in widths]
     jobs += [('counter', (b, 6 if ctx.thorough else 5)) for b in range(0, 6)]
     jobs.append(('heavy', None))
+    jobs += [('lifetime', (2, 3, [1, 2])), ('lifetime', (1, 4, [3])), ('lifetime', (3, 2, [0, 1, 1]))]
     for st in pmap(_dispatch, jobs):
         ctx.stats.merge(st)
     if ctx.stats.n.get('not_closed'):
